@@ -19,10 +19,16 @@
 static size_t VERIF_ALLOC_LIMIT = size_t(16) << 20;      // env VERIF_ALLOC_MB
 void* operator new(size_t n) { if (n > VERIF_ALLOC_LIMIT) throw std::bad_alloc(); void *p = malloc(n ? n : 1); if (!p) throw std::bad_alloc(); return p; }
 void* operator new[](size_t n) { return operator new(n); }
+// the nothrow forms too (std::get_temporary_buffer / std::stable_sort use them): every form has to end in
+// malloc / free, or the sanitizer reports an alloc-dealloc mismatch that is an artefact of this file
+void* operator new(size_t n, const std::nothrow_t&) noexcept { return n > VERIF_ALLOC_LIMIT ? nullptr : malloc(n ? n : 1); }
+void* operator new[](size_t n, const std::nothrow_t&) noexcept { return n > VERIF_ALLOC_LIMIT ? nullptr : malloc(n ? n : 1); }
 void operator delete(void *p) noexcept { free(p); }
 void operator delete[](void *p) noexcept { free(p); }
 void operator delete(void *p, size_t) noexcept { free(p); }
 void operator delete[](void *p, size_t) noexcept { free(p); }
+void operator delete(void *p, const std::nothrow_t&) noexcept { free(p); }
+void operator delete[](void *p, const std::nothrow_t&) noexcept { free(p); }
 
 #include <vrec.hpp>
 #include <amgcl/util.hpp>
@@ -212,6 +218,8 @@ static std::string sub(bool isolate, const std::function<Out()> &f) {
 static long g_cases = 0, g_crashed = 0;
 // Without the sanitizer an out-of-bounds write may corrupt the heap silently, so every case gets
 // its own process; under ASan the first bad access aborts, so cases are batched.
+static const long ISOLATE_CAP = 40;
+static bool g_full_only = false;
 static void drive_slice(int first, int N, const std::function<std::string(int, bool)> &run, std::ostream &out) {
     int batch = g_san ? 64 : 1;
     int idx = first;
@@ -245,8 +253,12 @@ static void drive_slice(int first, int N, const std::function<std::string(int, b
         g_cases += done;
         idx += done;
         if (!(WIFEXITED(status) && WEXITSTATUS(status) == 0) && idx < end) {
-            // case idx killed the batch: re-run it with every read isolated
+            // case idx killed the batch: re-run it with every read isolated (one grandchild per read).  When a
+            // change of the library makes hundreds of cases die, that costs minutes: after ISOLATE_CAP cases per
+            // lane the remaining dying cases are re-run with the full read isolated only.
+            g_full_only = g_crashed >= ISOLATE_CAP;
             out << run(idx, true) << "\n";
+            g_full_only = false;
             ++g_cases; ++g_crashed; ++idx;
         }
         out << std::flush;
@@ -578,6 +590,7 @@ static std::string run_case(const FileSpec &f, const Damage &x, bool isolate) {
     std::string parts = "[";
     bool first = true;
     for (auto r : ranges_for(f.n)) {
+        if (isolate && g_full_only) break;
         // NOTE: ids must stay consistent between full and part reads of one case: when isolated the
         // children intern independently, so isolated cases are judged on structure and crash only
         vr::obj pp; pp.i("rb", r.first).i("re", r.second);
